@@ -30,6 +30,7 @@ THEOREMS = {
     'store_limits': ('storeLimits', ['C01', 'C02', 'C03', 'C05', 'C18']), 'resize_limits': ('resizeLimits', ['C02', 'C17']),
     'nint_of': ('nintOf', ['C02', 'C06']), 'extended_prec': ('extendedPrec', ['C18']),
     'rshift_expansion': ('rshiftExpansion', ['C14']), 'lshift_word': ('lshiftWord', ['C14']),
+    'valid_rounding': ('valid_rounding', ['C20']), 'valid_overflow': ('valid_overflow', ['C20']),
 }
 
 # theorems of Tie.lean that restate a property theorem about the generated rule: name -> (tie theorems used, properties)
